@@ -499,6 +499,17 @@ def f4(ctx, fx, rule="C10.F4"):
             ctx.finding(rule, S, "envelope-member:%s" % nm, "`%s` is left out of the JSON form under some condition (skip_serializing_if), but the reader requires it (missing_field::<%s>): "
                         "a JSON-serialized SD-JWT / presentation this library produces (e.g. with no disclosures) is rejected by its own parser, while the Compact form of the same data is accepted"
                         % (nm, ty), line=S.term(bbs[0]).get("line"))
+    # the key-binding member is optional for the reader whatever the writer does: other implementations leave `kb_jwt` out when there is
+    # no key binding, and the Compact form of the same data (`jwt~d1~..~`) is accepted. serde's private `missing_field::<Option<T>>` turns
+    # absence into None; a direct `de::Error::missing_field("kb_jwt")` (what `deserialize_with` without `default` generates) or a
+    # non-Option member type makes it mandatory.
+    if "kb_jwt" in read or "kb_jwt" in written:
+        ty = required.get("kb_jwt")
+        if ty is None or ty.startswith("std::option::Option<"):
+            ctx.ok(rule, D, "envelope-kb-optional", "a JSON form without `kb_jwt` is read as one without key binding (%s)" % ("missing_field::<Option<..>> = None" if ty else "defaulted"))
+        else:
+            ctx.finding(rule, D, "envelope-kb-optional", "the reader requires the `kb_jwt` member (missing_field yields an error, not None: `%s`): a JSON-serialized SD-JWT without "
+                        "key binding that leaves the member out is rejected while its Compact transcoding is accepted" % ty)
     if read and set(written) != read:
         ctx.finding(rule, S, "envelope-names", "the member names written %s differ from the names read %s" % (sorted(written), sorted(read)))
     elif read:
